@@ -7,7 +7,7 @@ import ast
 import z3
 from .. import vals as V
 from ..vals import EngineError, I, R, Arr
-from ..engine import Engine, State, is_num, is_int, is_bool, to_real
+from ..engine import Engine, State, is_num, is_int, is_bool, to_real, is_z3
 from .pylists import occurs
 
 TRUSTED = "model:python aggregates over generator expressions (all/any/sum/min/max) = quantifier / ghost prefix sum"
@@ -32,7 +32,7 @@ def new_consts(exprs, mark):
     return out
 
 
-def gen_parts(self, g, st, spec):
+def gen_parts(self, g, st, spec, allow_values=False):
     if len(g.generators) != 1:
         raise EngineError("generator expression with several for-clauses")
     comp = g.generators[0]
@@ -66,14 +66,14 @@ def gen_parts(self, g, st, spec):
     new = st.pc[npc:]
     del st.pc[npc:]
     dep = [f for f in new if occurs(f, k)]
-    if dep and not is_num(elt) and not is_bool(elt):
+    if dep and not is_num(elt) and not is_bool(elt) and not allow_values:
         raise EngineError("generator element with per-element auxiliary definitions and a non-scalar value")
-    sk = new_consts(dep, mark)
+    sk = new_consts(dep + [c for c in V.comps(elt)], mark) if allow_values else new_consts(dep, mark)
     sub = [(c, z3.Function(nm + "_sk", I, c.sort())(k)) for nm, c in sk.items()]
     if sub:
         new = [z3.substitute(f, *sub) for f in new]
         cond = z3.substitute(cond, *sub)
-        elt = z3.substitute(elt, *sub)
+        elt = z3.substitute(elt, *sub) if is_z3(elt) else V.rebuild(elt, [z3.substitute(c, *sub) for c in V.comps(elt)])
         for o in self.obls[nobl:]:
             o.goal = z3.substitute(o.goal, *sub)
             o.hyps = o.hyps[:npc] + [z3.substitute(h, *sub) for h in o.hyps[npc:]]
